@@ -48,6 +48,7 @@ FLOATS = {'Float16': ['_', 'FloatingPoint', '5', '11'],
 
 # scripts that exercise inference through tables rebuilt per input (extra
 # code -> spec inputs beside lib/seeds.py); every symbol bound once
+DEEP_LET = {'quick': 420, 'thorough': 1200}
 EXTRA = {
     'let_in_let_binding': '''
 (declare-const x (_ BitVec 8))
@@ -126,6 +127,17 @@ EXTRA = {
 (assert (> (radius (rect 2 3)) 0.5))
 (assert (tag (rect 4 5)))
 (assert (= (w (circle 1.5)) (h s)))
+''',
+    # select over a store whose base ddSMT cannot type (an application of a
+    # declared function, a parameter of a defined function)
+    'select_store_untyped_base': '''
+(declare-fun f (Int) (Array Int Bool))
+(declare-fun pick ((Array Int Bool)) Int)
+(declare-const j Int)
+(define-fun g ((a (Array (_ BitVec 4) (_ BitVec 8))) (i (_ BitVec 4))) (_ BitVec 8) (select (store a i #x01) (bvnot i)))
+(assert (select (store (f 0) j true) (+ j 1)))
+(assert (= (pick (store (f 1) j false)) (+ j 2)))
+(assert (= (g ((as const (Array (_ BitVec 4) (_ BitVec 8))) #x00) #b0001) #x01))
 ''',
     'ite_unknown_branch': '''
 (declare-fun u (Int) (_ BitVec 3))
@@ -381,6 +393,33 @@ def main():
                            meta, stats, seen_props)
         rep.sample({'term': SC.render(term), 'sort': root_sort}, limit=5)
 
+    # a let whose second binding is too deep for recursive inference (the
+    # first one is typed): whatever ddSMT then claims for the names in the
+    # body must still be right.  TLC judges the positions outside the deep
+    # term against the same script with the deep term replaced by (+ n 1) -
+    # same sort by construction; the JSON reader of TLC stops at 255 levels
+    if not a.replay:
+        deep = 'n'
+        for _ in range(DEEP_LET[a.tier]):
+            deep = '(+ ' + deep + ' 1)'
+        tmpl = ('(declare-const n Int)\n(declare-const v (_ BitVec 8))\n'
+                '(assert (let ((p (bvnot v)) (s %s)) '
+                '(and (= p v) (> s 0) (= (- s) n))))\n')
+        full = list(nodeio.parse_smtlib(tmpl % deep))
+        short = list(nodeio.parse_smtlib(tmpl % '(+ n 1)'))
+        spaths = SC.paths_of(short)
+        positions = sorted(p for p in spaths.values() if len(p) >= 2
+                           and p[:6] != (3, 2, 2, 2, 2, 1) and
+                           p[:5] != (3, 2, 2, 2, 2))
+        rep.count()
+        for order in ('pre', 'post'):
+            q = query(mods, full, positions, order)
+            stats['positions'] += len(positions)
+            add_sort_case(short, claims_to_recs(q, positions),
+                          {'what': 'seed', 'seed': 'deep_let_second_binding',
+                           'order': order, 'input': tmpl % deep,
+                           'suspect': False})
+        rep.nontrivial('seed:deep_let_second_binding')
     # ---- code -> spec: seed scripts --------------------------------------
     for name, text in extra:
         try:
